@@ -90,6 +90,7 @@ def judgeConn (d : DictRt) (n : Nat) (useMux coal : Bool) (evTok : String) (impl
   let modelSnaps := outs.map (fun g => g.splitOn "|")
   let hasTimeout := evs.any (fun e => match e with | .conn _ .readTimeout => true | _ => false)
   let hasPanic := evs.any (fun e => match e with | .conn _ .handlerPanic => true | _ => false)
+  let hasCN := evs.any (fun e => match e with | .conn _ .requestCN => true | _ => false)
   Id.run do
     let mut fails : List String := []
     let field := fun (snap : String) (i : Nat) => (snap.splitOn ",").getD i ""
@@ -106,6 +107,7 @@ def judgeConn (d : DictRt) (n : Nat) (useMux coal : Bool) (evTok : String) (impl
             if field si 1 ≠ field smm 1 then
               fails := (if (field smm 1).startsWith (field si 1) ∨ field si 1 = "-" then "C08:message-not-dispatched-or-delayed" else "C08:handler-order-or-messages-differ") :: fails
               if mux2 then fails := "C15:fault-on-one-connection-stalls-dispatch" :: fails
+              if hasCN then fails := "C14:inbound-message-lost-or-reordered-after-closenotify-request" :: fails
               if hasTimeout then fails := "C05:framing-lost-after-failed-read" :: fails
             else if field si 0 ≠ field smm 0 then
               fails := (if field smm 0 = "closed" then "C14:close-notify-did-not-fire" else if field si 0 = "closed" then "C14:close-notify-fired-early-or-unrequested" else "C14:channel-state-differs") :: fails
